@@ -6,8 +6,8 @@ EXTENDS Dpll, Sequences, SequencesExt, TLC, Json, IOUtils
 CONSTANTS NV, MaxC
 Lits == {x \in (-NV)..NV : x # 0}
 ClauseSpace == {c \in SUBSET Lits : Cardinality(c) <= 3}
-Formulas == {cs \in SUBSET ClauseSpace : Cardinality(cs) \in 1..MaxC}
-AssumSets == {as \in SUBSET Lits : Cardinality(as) <= 1}
+Formulas == {cs \in SUBSET ClauseSpace : Cardinality(cs) \in 0..MaxC}      \* the empty formula included
+AssumSets == {as \in SUBSET Lits : Cardinality(as) <= 2}         \* contradictory pairs {x, -x} included
 Case(cs, as) == [clauses |-> SetToSeq({SetToSeq(c) : c \in cs}), assumptions |-> SetToSeq(as),
                  sat |-> Dpll({c \in cs : ~\E x \in c : -x \in c} \cup Units(as))]
 ASSUME ndJsonSerialize(IOEnv.EXPORT_FILE, SetToSeq({Case(cs, as) : cs \in Formulas, as \in AssumSets}))
